@@ -902,9 +902,14 @@ Definition interp_src (e : env) (x : cfg_src) : list str :=
   | SrcRepo name => [join (e_root e) (subst_arch (e_arch e) (s name))]
   end.
 
-Lemma gen_default_files : forall e, default_files e = flat_map (interp_src e) (global_order ++ repo_order).
+Definition apply_dedupe (m : dedupe_mode) (l : list str) : list str :=
+  match m with DedupeNone => l | DedupeKeepLast => keep_last l end.
+
+Lemma gen_default_files :
+  forall e, default_files e =
+    apply_dedupe global_dedupe (flat_map (interp_src e) global_order) ++ flat_map (interp_src e) repo_order.
 Proof.
-  intros [xd h xh r a]. unfold default_files, global_files, repo_files, global_order, repo_order.
+  intros [xd h xh r a]. unfold default_files, global_files, global_files_raw, repo_files, global_order, repo_order, global_dedupe, apply_dedupe.
   cbn [app flat_map interp_src env_var String.eqb Ascii.eqb Bool.eqb e_xdg_dirs e_home e_xdg_home e_root e_arch].
   unfold user_file, expand_home, config_name, join. cbn [e_home e_root e_arch].
   change (sep_code ":") with 58%N.
@@ -912,8 +917,54 @@ Proof.
   change (subst_arch a (s ".plzconfig")) with (s ".plzconfig").
   change (subst_arch a (s ".plzconfig.local")) with (s ".plzconfig.local").
   change (subst_arch a (s ".plzconfig_<arch>")) with (s ".plzconfig_" ++ a).
-  cbn [app]. f_equal. symmetry. exact (app_assoc _ (_ :: _) _).
+  cbn [app]. rewrite ?app_nil_r. reflexivity.
 Qed.
+
+(* keep_last: every name once (INDUCTION over the list), nothing lost, nothing invented, and the identity on a list without
+   repetitions - so in the ordinary case the search order is literally the documented one *)
+Lemma existsb_str_In x l : existsb (str_eqb x) l = true <-> In x l.
+Proof.
+  rewrite existsb_exists. split.
+  - intros [y [Hy E]]. destruct (str_eqb_spec x y); [now subst|discriminate].
+  - intros H. exists x. split; [exact H|]. destruct (str_eqb_spec x x); congruence.
+Qed.
+
+Lemma keep_last_In x l : In x (keep_last l) <-> In x l.
+Proof.
+  induction l as [|a r IH]; cbn [keep_last In]; [tauto|].
+  destruct (existsb (str_eqb a) r) eqn:E.
+  - rewrite IH. apply existsb_str_In in E. split; [tauto|]. intros [<-|H]; assumption.
+  - cbn [In]. rewrite IH. tauto.
+Qed.
+
+Lemma keep_last_NoDup l : NoDup (keep_last l).
+Proof.
+  induction l as [|a r IH]; cbn [keep_last]; [constructor|].
+  destruct (existsb (str_eqb a) r) eqn:E; [exact IH|]. constructor; [|exact IH].
+  rewrite keep_last_In. intros H. apply existsb_str_In in H. congruence.
+Qed.
+
+Lemma keep_last_id l : NoDup l -> keep_last l = l.
+Proof.
+  induction 1 as [|a r Hnin _ IH]; cbn [keep_last]; [reflexivity|].
+  destruct (existsb (str_eqb a) r) eqn:E; [apply existsb_str_In in E; contradiction|]. now rewrite IH.
+Qed.
+
+(* the name that is kept is the LAST mention: whatever follows the last mention of x stays behind it *)
+Lemma keep_last_last before x after :
+  ~ In x after -> exists pre, keep_last (before ++ x :: after) = pre ++ x :: keep_last after /\ ~ In x pre.
+Proof.
+  intros Hn. induction before as [|a r [pre [IH Hpre]]]; cbn [app keep_last].
+  - exists []. destruct (existsb (str_eqb x) after) eqn:E; [apply existsb_str_In in E; contradiction|]. split; [reflexivity|tauto].
+  - destruct (existsb (str_eqb a) (r ++ x :: after)) eqn:E.
+    + exists pre. split; [exact IH|exact Hpre].
+    + exists (a :: pre). split; [cbn [app]; now rewrite IH|].
+      intros [->|H]; [|contradiction].
+      assert (existsb (str_eqb x) (r ++ x :: after) = true) by (apply existsb_str_In, in_or_app; right; now left).
+      congruence.
+Qed.
+
+
 
 Definition interp_reads (profiles : list str) (filename : str) (r : cfg_read) : list str :=
   match r with
@@ -928,12 +979,12 @@ Proof. intros. unfold reads_for, per_file_reads. cbn [flat_map interp_reads app]
 Theorem default_order_documented :
   forall e, exists xdg_dirs xdg_home,
     default_files e =
-      [s "/etc/please/plzconfig"] ++ xdg_dirs ++ [e_home e ++ s "/.config/please/plzconfig"] ++ xdg_home ++
+      keep_last ([s "/etc/please/plzconfig"] ++ xdg_dirs ++ [e_home e ++ s "/.config/please/plzconfig"] ++ xdg_home) ++
       [e_root e ++ s "/.plzconfig"; e_root e ++ s "/.plzconfig_" ++ e_arch e; e_root e ++ s "/.plzconfig.local"].
 Proof.
   intros e. rewrite gen_default_files.
   exists (interp_src e (SrcEnvDirs "XDG_CONFIG_DIRS" ":" "plzconfig")), (interp_src e (SrcEnvDir "XDG_CONFIG_HOME" "plzconfig")).
-  unfold global_order, repo_order. cbn [app flat_map]. rewrite ?app_nil_r.
+  unfold global_order, repo_order, global_dedupe, apply_dedupe. cbn [app flat_map]. rewrite ?app_nil_r.
   destruct e as [xd h xh r a]. unfold interp_src at 1 3 5 6 7.
   cbn [e_home e_root e_arch]. unfold expand_home, join.
   change (s "~/.config/please/plzconfig") with (126%N :: s "/.config/please/plzconfig").
@@ -942,6 +993,14 @@ Proof.
   change (subst_arch a (s ".plzconfig_<arch>")) with (s ".plzconfig_" ++ a).
   cbn [e_home]. reflexivity.
 Qed.
+
+(* every global location is read once *)
+Theorem global_files_once : forall e, NoDup (global_files e).
+Proof. intros e. apply keep_last_NoDup. Qed.
+
+Theorem global_files_complete : forall e x, In x (global_files e) <-> In x (global_files_raw e).
+Proof. intros e x. apply keep_last_In. Qed.
+
 
 (* ---- tie to the source: the defaults of the sampled options ---- *)
 Definition gen_late (name : str) : option (list str) :=
@@ -1099,3 +1158,407 @@ Proof.
   specialize (H real_schema w_blank (default_files root_env) [] [] c real_schema_wf Hc o_bfn).
   unfold srcs_default in Hs. rewrite Hs, Hv in H. discriminate.
 Qed.
+
+(* ================================================================================================ *)
+(* 8. A layer that exists but cannot be opened (readConfigFileOnly: only "does not exist" is skipped) *)
+
+Definition openable (faults : list str) (order : list str) : bool := forallb (fun n => negb (mem n faults)) order.
+
+Lemma sources_cons fs n r :
+  sources fs (n :: r) = (match fs_open fs n with Some f => [f] | None => [] end) ++ sources fs r.
+Proof. reflexivity. Qed.
+
+(* INDUCTION OVER THE READ ORDER: when every Open succeeds or reports "does not exist", the loop reads exactly the
+   existing files, in order, and opens every name. *)
+Lemma read_loop_no_fault fs faults order :
+  openable faults order = true -> read_loop fs faults order = (Some (sources fs order), order).
+Proof.
+  induction order as [|n r IH]; cbn [openable forallb read_loop]; [reflexivity|].
+  intros H. apply andb_true_iff in H as [Hn Hr]. apply negb_true_iff in Hn.
+  unfold fs_open_f. rewrite Hn, sources_cons. fold (openable faults r) in Hr. rewrite (IH Hr).
+  destruct (fs_open fs n); reflexivity.
+Qed.
+
+(* ... and it stops, with an error, at the first name whose Open fails otherwise - whatever follows is never opened *)
+Lemma read_loop_fault fs faults before n after :
+  openable faults before = true -> mem n faults = true ->
+  read_loop fs faults (before ++ n :: after) = (None, before ++ [n]).
+Proof.
+  intros Hb Hn. induction before as [|a r IH]; cbn [app read_loop].
+  - unfold fs_open_f. now rewrite Hn.
+  - cbn [openable forallb] in Hb. apply andb_true_iff in Hb as [Ha Hr]. apply negb_true_iff in Ha.
+    unfold fs_open_f. rewrite Ha. fold (openable faults r) in Hr. rewrite (IH Hr).
+    destruct (fs_open fs a); reflexivity.
+Qed.
+
+Lemma first_fault_split faults order :
+  openable faults order = false ->
+  exists before n after, order = before ++ n :: after /\ openable faults before = true /\ mem n faults = true.
+Proof.
+  induction order as [|a r IH]; cbn [openable forallb]; [discriminate|].
+  destruct (mem a faults) eqn:Ha; cbn [negb andb].
+  - intros _. exists [], a, r. repeat split. exact Ha.
+  - intros H. destruct (IH H) as [b [n [af [-> [Hb Hn]]]]]. exists (a :: b), n, af. repeat split.
+    + cbn [openable forallb]. rewrite Ha. exact Hb.
+    + exact Hn.
+Qed.
+
+Lemma read_config_config_of sch fs order : read_config sch fs order = config_of sch (sources fs order).
+Proof. reflexivity. Qed.
+
+(* without a failing Open the two pipelines are the same *)
+Theorem no_fault_same :
+  forall sch fs faults filenames profiles ovs,
+    openable faults (read_order filenames profiles) = true ->
+    effective_f sch fs faults filenames profiles ovs = effective sch fs filenames profiles ovs.
+Proof.
+  intros sch fs faults filenames profiles ovs H. unfold effective_f, effective.
+  rewrite (read_loop_no_fault _ _ _ H), read_config_config_of. reflexivity.
+Qed.
+
+(* A config location that exists but cannot be opened ABORTS the read; the names opened end with it. *)
+Theorem unopenable_layer_aborts :
+  forall sch fs faults filenames profiles ovs before n after,
+    read_order filenames profiles = before ++ n :: after ->
+    openable faults before = true -> mem n faults = true ->
+    effective_f sch fs faults filenames profiles ovs = None
+    /\ snd (read_loop fs faults (read_order filenames profiles)) = before ++ [n].
+Proof.
+  intros sch fs faults filenames profiles ovs before n after E Hb Hn. unfold effective_f.
+  rewrite E, (read_loop_fault _ _ _ _ after Hb Hn). split; reflexivity.
+Qed.
+
+(* NO LAYER IS EVER SILENTLY SKIPPED: whenever a configuration is produced, every name of the read order was opened
+   without a fault, and the configuration is the one computed from ALL the existing files. *)
+Theorem unopenable_layer_never_skipped :
+  forall sch fs faults filenames profiles ovs c,
+    effective_f sch fs faults filenames profiles ovs = Some c ->
+    openable faults (read_order filenames profiles) = true
+    /\ effective sch fs filenames profiles ovs = Some c.
+Proof.
+  intros sch fs faults filenames profiles ovs c H.
+  destruct (openable faults (read_order filenames profiles)) eqn:Ho.
+  - split; [reflexivity|]. now rewrite <- (no_fault_same _ _ _ _ _ _ Ho).
+  - destruct (first_fault_split _ _ Ho) as [b [n [af [E [Hb Hn]]]]].
+    destruct (unopenable_layer_aborts sch fs faults filenames profiles ovs b n af E Hb Hn) as [Hnone _].
+    congruence.
+Qed.
+
+(* ---- tie to the source: the handling of an Open error, regenerated from readConfigFileOnly ---- *)
+Definition open_by_policy (fs : fsys) (faults : list str) (name : str) : open_res :=
+  if mem name faults
+  then match on_open_other_error with OpenAbort => OpenErr | OpenSkip => Absent end
+  else match fs_open fs name with
+       | Some f => Opened f
+       | None => match on_open_not_exist with OpenSkip => Absent | OpenAbort => OpenErr end
+       end.
+
+Lemma gen_open_policy : forall fs faults name, fs_open_f fs faults name = open_by_policy fs faults name.
+Proof. intros. reflexivity. Qed.
+
+(* readConfigFile: a fresh plugin map per file, the read aborts on an error, the merge runs after every successful read *)
+Lemma gen_read_file_steps : read_file_steps = [RSavePlugins; RFreshPlugins; RReadOrAbort; RMergePlugins].
+Proof. reflexivity. Qed.
+
+(* ================================================================================================ *)
+(* 9. [Plugin "x"] sections: lower-cased keys, merged layer by layer                                 *)
+
+From Coq Require Import Permutation.
+
+Lemma pkey_eqb_spec a b : reflect (a = b) (pkey_eqb a b).
+Proof.
+  destruct a as [p k], b as [p' k']. unfold pkey_eqb. cbn [fst snd].
+  destruct (str_eqb_spec p p') as [->|Hp]; cbn [andb]; [|constructor; congruence].
+  destruct (str_eqb_spec k k') as [->|Hk]; constructor; congruence.
+Qed.
+
+Lemma pkey_eqb_refl k : pkey_eqb k k = true.
+Proof. destruct (pkey_eqb_spec k k); congruence. Qed.
+
+(* does the entry / assignment with this key as written set the (lower-case) key k ? *)
+Definition khit (k w : pkey) : bool := pkey_eqb k (lower_key w).
+Definition pmentions (k : pkey) (f : pfile) : bool := existsb (fun a => khit k (fst a)) f.
+(* the values a file gives k, whatever the spelling of the key, in file order *)
+Definition pvals (k : pkey) (f : pfile) : list str := flat_map (fun a => if khit k (fst a) then [snd a] else []) f.
+(* the file spells the key in one way only *)
+Definition one_spelling (k : pkey) (f : pfile) : Prop :=
+  forall a b, In a f -> In b f -> khit k (fst a) = true -> khit k (fst b) = true -> fst a = fst b.
+
+(* documented layering of a plugin option: the highest-priority file that sets it, case-insensitively *)
+Definition spec_plugin (k : pkey) (srcs : list pfile) : option (list str) :=
+  option_map (pvals k) (find (pmentions k) (rev srcs)).
+
+Fixpoint last_hit (k : pkey) (es : pmap) : option (pkey * list str) :=
+  match es with
+  | [] => None
+  | e :: r => match last_hit k r with
+              | Some x => Some x
+              | None => if khit k (fst e) then Some e else None
+              end
+  end.
+
+(* the lower-casing pass, over ANY iteration order: the last entry written under a key stays *)
+Lemma lower_keys_fold es c k :
+  fold_left (fun c e => pupd c (lower_key (fst e)) (Some (snd e))) es c k =
+    match last_hit k es with Some e => Some (snd e) | None => c k end.
+Proof.
+  revert c; induction es as [|e r IH]; intros c; cbn [fold_left last_hit]; [reflexivity|].
+  rewrite IH. destruct (last_hit k r); [reflexivity|]. unfold pupd, khit. now destruct (pkey_eqb k (lower_key (fst e))).
+Qed.
+
+Lemma last_hit_nil k es : filter (fun e => khit k (fst e)) es = [] -> last_hit k es = None.
+Proof.
+  induction es as [|e r IH]; cbn [filter last_hit]; [reflexivity|].
+  destruct (khit k (fst e)) eqn:He; [discriminate|]. intros H. now rewrite (IH H).
+Qed.
+
+Lemma last_hit_one k es e : filter (fun e => khit k (fst e)) es = [e] -> last_hit k es = Some e.
+Proof.
+  induction es as [|a r IH]; cbn [filter last_hit]; [discriminate|].
+  destruct (khit k (fst a)) eqn:Ha.
+  - intros [= -> Hr]. now rewrite (last_hit_nil _ _ Hr).
+  - intros H. now rewrite (IH H).
+Qed.
+
+Lemma Permutation_filter {A} (p : A -> bool) l l' : Permutation l l' -> Permutation (filter p l) (filter p l').
+Proof.
+  induction 1 as [|x l l' _ IH|x y l|l l' l'' _ IH1 _ IH2]; cbn [filter].
+  - constructor.
+  - destruct (p x); [now constructor|exact IH].
+  - destruct (p x), (p y); try reflexivity. apply perm_swap.
+  - now transitivity (filter p l').
+Qed.
+
+Lemma dedup_In l x : In x (dedup l) <-> In x l.
+Proof.
+  induction l as [|k r IH]; cbn [dedup In]; [tauto|]. rewrite filter_In, IH.
+  destruct (pkey_eqb_spec x k) as [->|Hne]; cbn [negb]; intuition congruence.
+Qed.
+
+Lemma dedup_NoDup l : NoDup (dedup l).
+Proof.
+  induction l as [|k r IH]; cbn [dedup]; constructor.
+  - rewrite filter_In. intros [_ H]. now rewrite pkey_eqb_refl in H.
+  - now apply NoDup_filter.
+Qed.
+
+Lemma filter_none {A} (p : A -> bool) l : (forall x, In x l -> p x = false) -> filter p l = [].
+Proof.
+  induction l as [|a r IH]; intros H; cbn [filter]; [reflexivity|].
+  rewrite (H a (or_introl eq_refl)). apply IH. intros x Hx. apply H. now right.
+Qed.
+
+Lemma filter_unique {A} (p : A -> bool) l w :
+  NoDup l -> In w l -> p w = true -> (forall x, In x l -> p x = true -> x = w) -> filter p l = [w].
+Proof.
+  induction 1 as [|a r Hnin Hnd IH]; intros Hin Hw Hall; [destruct Hin|]. cbn [filter].
+  destruct Hin as [->|Hin].
+  - rewrite Hw. f_equal. apply filter_none. intros x Hx. destruct (p x) eqn:Hp; [|reflexivity].
+    assert (x = w) by (apply Hall; [now right|exact Hp]). subst x. contradiction.
+  - destruct (p a) eqn:Hp.
+    + assert (a = w) by (apply Hall; [now left|exact Hp]). subst a. contradiction.
+    + apply IH; [exact Hin|exact Hw|]. intros x Hx. apply Hall. now right.
+Qed.
+
+Lemma filter_map_hit k (f : pfile) l :
+  filter (fun e => khit k (fst e)) (map (fun w => (w, exact_vals w f)) l) =
+  map (fun w => (w, exact_vals w f)) (filter (khit k) l).
+Proof.
+  induction l as [|w r IH]; cbn [map filter fst]; [reflexivity|]. rewrite IH. now destruct (khit k w).
+Qed.
+
+Lemma pmentions_false k f : pmentions k f = false -> forall a, In a f -> khit k (fst a) = false.
+Proof.
+  unfold pmentions. intros H a Ha. destruct (khit k (fst a)) eqn:E; [|reflexivity].
+  assert (existsb (fun a => khit k (fst a)) f = true) by (apply existsb_exists; eauto). congruence.
+Qed.
+
+(* the entries gcfg builds for one file that end up under the key k *)
+Lemma parse_hits_none k f :
+  pmentions k f = false -> filter (fun e => khit k (fst e)) (parse_pfile f) = [].
+Proof.
+  intros H. unfold parse_pfile. rewrite filter_map_hit, filter_none; [reflexivity|].
+  intros w Hw. apply dedup_In, in_map_iff in Hw as [a [<- Ha]]. exact (pmentions_false _ _ H _ Ha).
+Qed.
+
+Lemma exact_vals_pvals k f w :
+  (forall a, In a f -> khit k (fst a) = true -> fst a = w) -> khit k w = true -> exact_vals w f = pvals k f.
+Proof.
+  intros Hall Hw. unfold exact_vals, pvals. induction f as [|a r IH]; cbn [flat_map]; [reflexivity|].
+  rewrite IH by (intros b Hb; apply Hall; now right). f_equal.
+  destruct (pkey_eqb_spec (fst a) w) as [->|Hne]; [now rewrite Hw|].
+  destruct (khit k (fst a)) eqn:E; [|reflexivity]. exfalso. apply Hne, Hall; [now left|exact E].
+Qed.
+
+Lemma parse_hits_one k f :
+  one_spelling k f -> pmentions k f = true ->
+  exists w, filter (fun e => khit k (fst e)) (parse_pfile f) = [(w, pvals k f)].
+Proof.
+  intros Hone Hm. unfold pmentions in Hm. apply existsb_exists in Hm as [a [Ha Hk]]. exists (fst a).
+  unfold parse_pfile. rewrite filter_map_hit.
+  rewrite (filter_unique (khit k) (dedup (map fst f)) (fst a)).
+  - cbn [map]. f_equal. f_equal. apply exact_vals_pvals; [|exact Hk].
+    intros b Hb Hkb. symmetry. now apply (Hone a b).
+  - apply dedup_NoDup.
+  - apply dedup_In, in_map. exact Ha.
+  - exact Hk.
+  - intros x Hx Hkx. apply dedup_In, in_map_iff in Hx as [b [<- Hb]]. symmetry. now apply (Hone a b).
+Qed.
+
+(* ONE LAYER, any map iteration order: a file that sets k (in one spelling) gives k its values; a file that does not
+   leaves the previous layers' value alone *)
+Lemma read_layer_value perm old f k :
+  (forall m, Permutation (perm m) m) -> one_spelling k f ->
+  read_layer perm old f k = if pmentions k f then Some (pvals k f) else old k.
+Proof.
+  intros Hperm Hone. unfold read_layer, merge_old, lower_keys. rewrite lower_keys_fold.
+  pose proof (Permutation_filter (fun e => khit k (fst e)) _ _ (Hperm (parse_pfile f))) as HP.
+  destruct (pmentions k f) eqn:Hm.
+  - destruct (parse_hits_one _ _ Hone Hm) as [w Hw]. rewrite Hw in HP.
+    apply Permutation_sym, Permutation_length_1_inv in HP. now rewrite (last_hit_one _ _ _ HP).
+  - rewrite (parse_hits_none _ _ Hm) in HP. apply Permutation_sym, Permutation_nil in HP.
+    now rewrite (last_hit_nil _ _ HP).
+Qed.
+
+Lemma read_plugins_snoc perm l f : read_plugins perm (l ++ [f]) = read_layer perm (read_plugins perm l) f.
+Proof. unfold read_plugins. now rewrite fold_left_app. Qed.
+
+(* INDUCTION OVER THE LAYERS, FOR EVERY MAP ITERATION ORDER: the effective value of a plugin option is the one from the
+   highest-priority file that sets it - however that file and the lower ones capitalise the key - and an option only lower
+   layers set is kept. *)
+Theorem plugin_highest_layer_wins :
+  forall perm srcs k,
+    (forall m, Permutation (perm m) m) ->
+    (forall f, In f srcs -> one_spelling k f) ->
+    read_plugins perm srcs k = spec_plugin k srcs.
+Proof.
+  intros perm srcs k Hperm. unfold spec_plugin. induction srcs as [|f l IH] using rev_ind; intros Hone; [reflexivity|].
+  rewrite read_plugins_snoc, rev_app_distr. cbn [rev app find].
+  rewrite read_layer_value; [|exact Hperm|apply Hone, in_or_app; right; now left].
+  destruct (pmentions k f); [reflexivity|]. apply IH. intros g Hg. apply Hone, in_or_app. now left.
+Qed.
+
+(* Go's map iteration order does not matter as long as no file spells one key in two ways *)
+Theorem plugin_order_independent :
+  forall perm1 perm2 srcs k,
+    (forall m, Permutation (perm1 m) m) -> (forall m, Permutation (perm2 m) m) ->
+    (forall f, In f srcs -> one_spelling k f) ->
+    read_plugins perm1 srcs k = read_plugins perm2 srcs k.
+Proof.
+  intros perm1 perm2 srcs k H1 H2 Hone.
+  now rewrite (plugin_highest_layer_wins _ _ _ H1 Hone), (plugin_highest_layer_wins _ _ _ H2 Hone).
+Qed.
+
+Lemma find_app_none {A} (p : A -> bool) l1 l2 : (forall x, In x l1 -> p x = false) -> find p (l1 ++ l2) = find p l2.
+Proof.
+  induction l1 as [|a r IH]; intros H; cbn [app find]; [reflexivity|].
+  rewrite (H a (or_introl eq_refl)). apply IH. intros x Hx. apply H. now right.
+Qed.
+
+Lemma find_rev_highest {A} (p : A -> bool) lower f higher :
+  p f = true -> Forall (fun g => p g = false) higher -> find p (rev (lower ++ f :: higher)) = Some f.
+Proof.
+  intros Hf Hh. rewrite rev_app_distr. cbn [rev]. rewrite <- app_assoc. cbn [app].
+  rewrite find_app_none.
+  - cbn [find]. now rewrite Hf.
+  - intros x Hx. apply in_rev in Hx. rewrite Forall_forall in Hh. now apply Hh.
+Qed.
+
+(* source-level form (what the property says): f is read after `lower` and before `higher`, nothing in `higher` sets
+   the key - then f's values are the effective ones, whatever `lower` says and however anyone capitalises the key *)
+Theorem plugin_source_level :
+  forall perm lower f higher k,
+    (forall m, Permutation (perm m) m) ->
+    (forall g, In g (lower ++ f :: higher) -> one_spelling k g) ->
+    pmentions k f = true -> Forall (fun g => pmentions k g = false) higher ->
+    read_plugins perm (lower ++ f :: higher) k = Some (pvals k f).
+Proof.
+  intros perm lower f higher k Hperm Hone Hf Hh.
+  rewrite (plugin_highest_layer_wins _ _ _ Hperm Hone). unfold spec_plugin.
+  now rewrite (find_rev_highest _ _ _ _ Hf Hh).
+Qed.
+
+(* a plugin option no file sets has no value *)
+Theorem plugin_unset :
+  forall perm srcs k,
+    (forall m, Permutation (perm m) m) -> Forall (fun g => pmentions k g = false) srcs ->
+    read_plugins perm srcs k = None.
+Proof.
+  intros perm srcs k Hperm Hno.
+  rewrite (plugin_highest_layer_wins _ _ _ Hperm).
+  - unfold spec_plugin. replace (find (pmentions k) (rev srcs)) with (@None pfile); [reflexivity|].
+    symmetry. rewrite <- (app_nil_r (rev srcs)). rewrite find_app_none; [reflexivity|].
+    intros x Hx. apply in_rev in Hx. rewrite Forall_forall in Hno. now apply Hno.
+  - intros f Hf a b Ha Hb Hka. rewrite Forall_forall in Hno.
+    pose proof (pmentions_false _ _ (Hno _ Hf) _ Ha). congruence.
+Qed.
+
+(* ---- tie to the source: the passes of normaliseAndMergePluginConfig, in the order they are written ---- *)
+Inductive pstage := Raw (m : pmap) | Norm (c : pcfg).
+
+(* A merge of the previous layers BEFORE the keys are lower-cased, or a second lower-casing pass, is not the algorithm
+   modelled (and proved correct) here: no interpretation. *)
+Definition interp_pstep (perm : pmap -> pmap) (old : pcfg) (st : option pstage) (step : plugin_step) : option pstage :=
+  match step, st with
+  | PLowerKeys, Some (Raw m) => Some (Norm (lower_keys (perm m)))
+  | PMergeOld, Some (Norm c) => Some (Norm (merge_old c old))
+  | _, _ => None
+  end.
+
+Definition stage_eq (a : option pstage) (c : pcfg) : Prop :=
+  match a with Some (Norm c') => c' = c | _ => False end.
+
+Lemma gen_plugin_layer :
+  forall perm old f,
+    stage_eq (fold_left (interp_pstep perm old) plugin_merge_steps (Some (Raw (parse_pfile f)))) (read_layer perm old f).
+Proof. intros. reflexivity. Qed.
+
+(* ---- the documented layering fails for a key one file spells in two ways: the result depends on the iteration order ---- *)
+Definition pk_gotool : pkey := (s "go", s "gotool").
+Definition w_two_spellings : pfile := [((s "go", s "GoTool"), s "one"); ((s "go", s "gotool"), s "two")].
+
+Lemma witness_two_spellings :
+  read_plugins (fun m => m) [w_two_spellings] pk_gotool = Some [s "two"]
+  /\ read_plugins (@rev _) [w_two_spellings] pk_gotool = Some [s "one"]
+  /\ pvals pk_gotool w_two_spellings = [s "one"; s "two"].
+Proof. vm_compute. repeat split. Qed.
+
+(* the mixed-case layering of the round-2 demo through the model: .plzconfig gotool / importpath, .plzconfig.local GoTool *)
+Definition w_plugin_base : pfile := [((s "go", s "gotool"), s "/from/plzconfig/go"); ((s "go", s "importpath"), s "example.com/base")].
+Definition w_plugin_local : pfile := [((s "go", s "GoTool"), s "/from/local/go")].
+
+Lemma plugin_examples :
+  read_plugins (fun m => m) [w_plugin_base; w_plugin_local] pk_gotool = Some [s "/from/local/go"]
+  /\ read_plugins (@rev _) [w_plugin_base; w_plugin_local] pk_gotool = Some [s "/from/local/go"]
+  /\ read_plugins (fun m => m) [w_plugin_base; w_plugin_local] (s "go", s "importpath") = Some [s "example.com/base"]
+  /\ one_spelling pk_gotool w_plugin_base /\ one_spelling pk_gotool w_plugin_local.
+Proof.
+  repeat split; try (vm_compute; reflexivity).
+  - intros a b [<-|[<-|[]]] [<-|[<-|[]]]; vm_compute; congruence.
+  - intros a b [<-|[]] [<-|[]]; reflexivity.
+Qed.
+
+(* the fault examples: .plzconfig.local exists, sets build.config and cannot be opened *)
+Definition w_fault_fs : fsys :=
+  [(s "/r/.plzconfig", [Assign (Single SStr (s "build.config")) (s "base")]);
+   (s "/r/.plzconfig.local", [Assign (Single SStr (s "build.config")) (s "local")])].
+
+Lemma fault_examples :
+  value_at (effective_f real_schema w_fault_fs [] (default_files root_env) [] []) (Single SStr (s "build.config")) = Some [s "local"]
+  /\ effective_f real_schema w_fault_fs [s "/r/.plzconfig.local"] (default_files root_env) [] [] = None
+  /\ snd (read_loop w_fault_fs [s "/r/.plzconfig.local"] (read_order (default_files root_env) []))
+     = [s "/etc/please/plzconfig"; s "/home/u/.config/please/plzconfig"; s "/r/.plzconfig"; s "/r/.plzconfig_linux_amd64";
+        s "/r/.plzconfig.local"].
+Proof. vm_compute. repeat split. Qed.
+
+(* the same user config file listed twice: XDG_CONFIG_HOME = ~/.config/please *)
+Definition xdg_dup_env : env :=
+  {| e_xdg_dirs := []; e_home := s "/home/u"; e_xdg_home := s "/home/u/.config/please"; e_root := s "/r"; e_arch := s "linux_amd64" |}.
+
+Lemma xdg_dup_read_once :
+  default_files xdg_dup_env =
+    [s "/etc/please/plzconfig"; s "/home/u/.config/please/plzconfig"; s "/r/.plzconfig"; s "/r/.plzconfig_linux_amd64"; s "/r/.plzconfig.local"]
+  /\ value_at (effective real_schema [(s "/home/u/.config/please/plzconfig", [Assign (Multi (s "parse.blacklistdirs")) (s "x")])]
+                 (default_files xdg_dup_env) [] []) (Multi (s "parse.blacklistdirs")) = Some [s "x"].
+Proof. split; vm_compute; reflexivity. Qed.
+
